@@ -153,3 +153,74 @@ Definition coarsen_cooler (oldt : list bin) (sizes : list Z) (px : list pixel) (
 (** the specification side: one canonical aggregate of all re-keyed pixels, keyed by index *)
 Definition coarsen_spec (lens : list Z) (px : list pixel) (k : Z) : list pixel :=
   aggregate (map (rekey (index_table lens k)) px).
+
+(* ====================================================================================
+   Any value type V and any aggregation  agg : list V -> V   ("the sum or requested aggregate")
+   ==================================================================================== *)
+Section GenericAgg.
+Context {V : Type}.
+Notation recd := (key * V)%type.
+
+(** pandas groupby(["bin1_id","bin2_id"], sort=True).aggregate(agg): groups in ascending key order, the
+    values of a group in order of appearance (storage order).  Textually the definition of
+    Model/Merge.v (property C07), repeated here so that C08/C09 do not depend on that development. *)
+Fixpoint gins (k : key) (v : V) (g : list (key * list V)) : list (key * list V) :=
+  match g with
+  | [] => [(k, [v])]
+  | (k', vs) :: t =>
+      match kcmp k k' with
+      | Eq => (k', vs ++ [v]) :: t
+      | Lt => (k, [v]) :: g
+      | Gt => (k', vs) :: gins k v t
+      end
+  end.
+Definition group (l : list recd) : list (key * list V) :=
+  fold_left (fun acc p => gins (fst p) (snd p) acc) l [].
+Definition groupby_agg (agg : list V -> V) (l : list recd) : list recd :=
+  map (fun g => (fst g, agg (snd g))) (group l).
+
+(** the values stored at key k, in storage order *)
+Definition vals (l : list recd) (k : key) : list V :=
+  map snd (filter (fun p => keqb (fst p) k) l).
+
+Definition grow (p : recd) : Z := fst (fst p).
+Definition gcol (p : recd) : Z := snd (fst p).
+Definition grekey (tbl : list Z) (p : recd) : recd :=
+  ((znth tbl (grow p) 0, znth tbl (gcol p) 0), snd p).
+
+(** indexes/bin1_offset of a table with any value columns *)
+Definition bin1_offset_g (n : Z) (px : list recd) : list Z :=
+  map (fun i => zlen (filter (fun p => grow p <? i) px)) (zrange 0 (Z.to_nat (n + 1))).
+
+Definition aggregate_span_g (agg : list V -> V) (px : list recd) (tbl : list Z) (s : Z * Z) : list recd :=
+  groupby_agg agg (map (grekey tbl) (slice px (fst s) (snd s))).
+
+Definition coarsener_iter_g (agg : list V -> V) (px : list recd) (tbl : list Z) (edges : list Z) (batchsize : Z)
+  : list (list recd) :=
+  concat (map (map (aggregate_span_g agg px tbl)) (chunks_of batchsize (spans edges))).
+
+Definition coarsener_edges_g (oldt : list bin) (px : list recd) (k chunksize : Z) : list Z :=
+  greedy_prune_partition (coarse_edges (chrom_offset oldt) (bin1_offset_g (zlen oldt) px) k) chunksize.
+
+Definition coarsen_pixels_g (agg : list V -> V) (oldt : list bin) (sizes : list Z) (px : list recd)
+           (k chunksize batchsize : Z) : list recd :=
+  concat (coarsener_iter_g agg px (rebin_table oldt sizes k) (coarsener_edges_g oldt px k chunksize) batchsize).
+
+Definition coarsen_cooler_g (agg : list V -> V) (oldt : list bin) (sizes : list Z) (px : list recd)
+           (k chunksize batchsize : Z) : list bin * list recd :=
+  (coarsen_bins oldt sizes k, coarsen_pixels_g agg oldt sizes px k chunksize batchsize).
+
+(** the specification side: ONE group-by over all re-keyed pixels, keyed by index *)
+Definition coarsen_spec_g (agg : list V -> V) (lens : list Z) (px : list recd) (k : Z) : list recd :=
+  groupby_agg agg (map (grekey (index_table lens k)) px).
+End GenericAgg.
+
+(** the aggregations the harness drives through the model (V = Z) *)
+Definition agg_max (l : list Z) : Z := match l with [] => 0 | x :: r => fold_left Z.max r x end.
+Definition agg_min (l : list Z) : Z := match l with [] => 0 | x :: r => fold_left Z.min r x end.
+(** pandas 'mean' on an integer column, scaled: (sum, count) is not representable in one Z; the model
+    uses the floor of the mean, which is enough for the refutation of composition *)
+Definition agg_mean (l : list Z) : Z := match l with [] => 0 | _ => sumZ l / zlen l end.
+Inductive aggop := AggSum | AggMax | AggMin.
+Definition agg_of (op : aggop) : list Z -> Z :=
+  match op with AggSum => sumZ | AggMax => agg_max | AggMin => agg_min end.
